@@ -759,6 +759,35 @@ def mirror_rule(model, rep, rule):
             {'block': blocks[0] if blocks else None}, line=cn.node.lineno,
             witness='an if/else ending a loop body: live-out of the if misses '
             'the loop header')
+  # the primitive reads its arguments: the sets of nodes it is given are the
+  # builder's own (leaves, exits of a finally section) and are used again
+  aliases = set(ps)
+  changed = True
+  while changed:
+    changed = False
+    for a_ in ast.walk(cn.node):
+      if isinstance(a_, ast.Assign) and len(a_.targets) == 1 and isinstance(
+          a_.targets[0], ast.Name) and a_.targets[0].id not in aliases:
+        arms = [a_.value]
+        while any(isinstance(x, (ast.IfExp, ast.BoolOp)) for x in arms):
+          arms = [y for x in arms for y in (
+              (x.body, x.orelse) if isinstance(x, ast.IfExp) else
+              (x.values if isinstance(x, ast.BoolOp) else (x,)))]
+        if any(isinstance(x, ast.Name) and x.id in aliases for x in arms):
+          aliases.add(a_.targets[0].id)
+          changed = True
+  consumed = [core.norm(c_) for c_ in ast.walk(cn.node) if isinstance(c_, ast.Call) and
+              isinstance(c_.func, ast.Attribute) and isinstance(c_.func.value, ast.Name) and
+              c_.func.value.id in aliases and c_.func.attr in (
+                  'pop', 'remove', 'discard', 'clear', 'add', 'update', 'difference_update',
+                  'intersection_update', 'popleft', 'append', 'extend')]
+  consumed += [core.norm(a_) for a_ in ast.walk(cn.node) if isinstance(a_, ast.AugAssign)
+               and isinstance(a_.target, ast.Name) and a_.target.id in aliases]
+  rep.check(not consumed, rule, '%s:arguments-not-consumed' % cn.site,
+            'the edge primitive changes a collection it was handed (or an alias of '
+            'it): the leaves / the exits of a finally section are connected more '
+            'than once and must survive', {'mutations': consumed}, line=cn.node.lineno,
+            witness='try/finally as last statement of a loop body with a break inside')
   writers = []
   for m in model.modules.values():
     for fi in m.all_functions():
